@@ -359,6 +359,71 @@ fn break_sdl(sdl: &str, rng: &mut Rng) -> String {
     lines.join("\n")
 }
 
+/// Split a schema text into (prelude: schema block, directives, scalars; the root query type's
+/// definition; all other type / interface definitions), by top-level definition.
+fn split_sdl(sdl: &str) -> (String, String, String) {
+    let root_name = sdl
+        .lines()
+        .find_map(|l| l.trim().strip_prefix("query:").map(|r| r.trim().trim_end_matches('}').trim().to_string()))
+        .unwrap_or_else(|| "RootSchemaQuery".to_string());
+    let (mut pre, mut root, mut body) = (String::new(), String::new(), String::new());
+    let mut target = 0; // 0 prelude, 1 root, 2 body
+    for line in sdl.lines() {
+        let head = line.split(|c: char| !c.is_alphanumeric() && c != '_').find(|w| !w.is_empty());
+        if !line.starts_with(' ') && !line.starts_with('\t') && !line.starts_with('}') {
+            match head {
+                Some("type") | Some("interface") => {
+                    let name = line.split_whitespace().nth(1).unwrap_or("").trim_end_matches('{');
+                    target = if name == root_name && line.starts_with("type") { 1 } else { 2 };
+                }
+                Some("schema") | Some("directive") | Some("scalar") => target = 0,
+                _ => {}
+            }
+        }
+        let dst = match target { 0 => &mut pre, 1 => &mut root, _ => &mut body };
+        dst.push_str(line);
+        dst.push('\n');
+    }
+    (pre, root, body)
+}
+
+/// `body` with every type / interface name it DEFINES suffixed (whole-word replacement).
+fn rename_defs(body: &str, suffix: &str) -> String {
+    let mut names: Vec<String> = vec![];
+    for line in body.lines() {
+        if line.starts_with("type ") || line.starts_with("interface ") {
+            if let Some(n) = line.split_whitespace().nth(1) {
+                let n = n.trim_end_matches('{').to_string();
+                if !names.contains(&n) {
+                    names.push(n);
+                }
+            }
+        }
+    }
+    let is_word = |c: char| c.is_alphanumeric() || c == '_';
+    let mut out = String::new();
+    let chars: Vec<char> = body.chars().collect();
+    let mut i = 0;
+    while i < chars.len() {
+        if is_word(chars[i]) {
+            let mut j = i;
+            while j < chars.len() && is_word(chars[j]) {
+                j += 1;
+            }
+            let w: String = chars[i..j].iter().collect();
+            out.push_str(&w);
+            if names.contains(&w) {
+                out.push_str(suffix);
+            }
+            i = j;
+        } else {
+            out.push(chars[i]);
+            i += 1;
+        }
+    }
+    out
+}
+
 #[derive(Default)]
 pub struct C14 {
     stats: RefCell<GenStats>,
@@ -371,7 +436,7 @@ impl Prop for C14 {
         "C14"
     }
     fn rule(&self) -> &'static str {
-        "the worlds of the engine generator. (det <schema> <data> <query> <args>): the query is compiled 3 times in one process, each time against a freshly parsed Schema (new RandomState keys in every HashMap), the RON of the IndexedQuery (or RON + Display of the error) compared byte for byte; executed 3 times over the logging table adapter, rows (in order) and the complete adapter event sequence (calls, pulled contexts, pulled neighbours) compared; then 2 fresh child processes recompute the same artefacts and their digests are compared. Besides the accepted queries, every world contributes broken queries with several frontend errors at once (duplicate output names, unused tags, undefined tag, unexpected edge parameters) and one schema text with several validation errors; (det-schema <sdl>) requests also cover every /repo/trustfall_core/test_data/tests/schema_errors/*.graphql (error Display text compared); for an ACCEPTED schema four fixed introspection queries (vertex types with implementers/properties/edges/parameters, entry points, Schema.vertex_type with implements) are run through the crate's own SchemaAdapter and their rows compared in order. The answer is `ok` iff all repetitions agree. Non-trivial: nt:rows (accepted query with >= 1 row), nt:multi-error (a compile or schema error listing >= 2 errors)."
+        "the worlds of the engine generator. (det <schema> <data> <query> <args>): the query is compiled 3 times in one process, each time against a freshly parsed Schema (new RandomState keys in every HashMap), the RON of the IndexedQuery (or RON + Display of the error) compared byte for byte; executed 3 times over the logging table adapter, rows (in order) and the complete adapter event sequence (calls, pulled contexts, pulled neighbours) compared; then 2 fresh child processes recompute the same artefacts and their digests are compared. Besides the accepted queries, every world contributes broken queries with several frontend errors at once (duplicate output names, unused tags, undefined tag, unexpected edge parameters) and one schema text with several validation errors; (det-schema <sdl>) requests also cover every /repo/trustfall_core/test_data/tests/schema_errors/*.graphql, each also with its non-root definitions tripled under renamed copies (>= 3 errors of the same kind: the order of the error list is what hash-order dependence changes) and one document combining all of them (error Display text compared); for an ACCEPTED schema four fixed introspection queries (vertex types with implementers/properties/edges/parameters, entry points, Schema.vertex_type with implements) are run through the crate's own SchemaAdapter and their rows compared in order. The answer is `ok` iff all repetitions agree. Non-trivial: nt:rows (accepted query with >= 1 row), nt:multi-error (a compile or schema error listing >= 2 errors)."
     }
     fn generate(&self, tier: Tier, rng: &mut Rng) -> Vec<Case> {
         let (worlds, stats) = generate_worlds(rng, &WorldKnobs::for_tier(tier));
@@ -415,10 +480,31 @@ impl Prop for C14 {
             .map(|d| d.filter_map(|e| e.ok()).map(|e| e.path()).filter(|p| p.extension().is_some_and(|x| x == "graphql")).collect())
             .unwrap_or_default();
         files.sort();
-        for f in files {
-            if let Ok(sdl) = std::fs::read_to_string(&f) {
+        let mut all_bodies: Vec<String> = vec![];
+        let mut prelude = String::new();
+        for (fi, f) in files.iter().enumerate() {
+            if let Ok(sdl) = std::fs::read_to_string(f) {
                 out.push(Case::new(Sexp::call("det-schema", vec![Sexp::atom(hex(sdl.as_bytes()))]), &["repo-schema-error"]));
+                // the same error three times over (renamed copies of every non-root definition): the
+                // ORDER of several errors of one kind is where hash-order dependence shows
+                // (seeded change C14-2: AmbiguousFieldOrigin errors listed in HashMap order)
+                let (pre, root, body) = split_sdl(&sdl);
+                let mut text = format!("{pre}{root}{body}");
+                for copy in 2..=3 {
+                    text.push_str(&rename_defs(&body, &format!("X{copy}")));
+                }
+                out.push(Case::new(Sexp::call("det-schema", vec![Sexp::atom(hex(text.as_bytes()))]), &["repo-schema-error-x3"]));
+                if prelude.is_empty() {
+                    prelude = format!("{pre}{root}");
+                }
+                all_bodies.push(rename_defs(&body, &format!("F{fi}")));
+                all_bodies.push(rename_defs(&body, &format!("G{fi}")));
             }
+        }
+        // every kind of error at once, each twice
+        if !prelude.is_empty() {
+            let text = format!("{prelude}{}", all_bodies.concat());
+            out.push(Case::new(Sexp::call("det-schema", vec![Sexp::atom(hex(text.as_bytes()))]), &["repo-schema-errors-combined"]));
         }
         out
     }
